@@ -31,7 +31,11 @@ def links_from_html(
 
         # urllib.parse.urljoin lowercases protocol...
         if not PROTOCOL_RE.match(url):
-            url = urljoin(base_url, url)
+            # NOTE: a href can be anything, the result may not be parseable
+            try:
+                url = urljoin(base_url, url)
+            except ValueError:
+                continue
 
         if not is_url(
             url,
